@@ -52,6 +52,13 @@ class Ctx:
     def fail(self, what, input, observed=None, required=None, **extra):
         d = {'what': what, 'input': input, 'observed': observed, 'required': required}
         d.update(extra)
+        try:
+            import chaos
+            snap = chaos.snapshot()
+            if snap and (snap['history'] or snap['form'] != 'str'):
+                d['chaos'] = snap
+        except Exception:
+            pass
         self.failures.append(d)
 
     def mismatch(self, stream, input, model, impl, **extra):
@@ -172,7 +179,12 @@ def main():
     ctx.obligations_ok = not broken
     infra_error = None
     try:
+        if getattr(mod, 'CHAOS', True):
+            import chaos
+            chaos.install(seed)
         mod.run(ctx)
+        if getattr(mod, 'CHAOS', True):
+            ctx.dist['chaos'] = chaos.stats()
     except Exception as e:
         infra_error = traceback.format_exc()
 
@@ -297,6 +309,13 @@ def do_replay(mod, prop, path):
     if payload.get('kind') != 'failing-input':
         print('replay names a broken obligation/correspondence (%s); re-run ./check %s' % (payload.get('theorem_or_stream'), prop))
         return 2
+    rec = (payload.get('extra') or {}).get('chaos')
+    if rec:
+        # the failure was seen after unrelated calls / with the text handed over in another form: re-create that first
+        import chaos
+        chaos.install(ctx.seed, force_form=rec.get('form') if rec.get('form') in ('stream', 'bytes') else None)
+        chaos.STATE['rng'].random = lambda: 1.0          # no new noise, no new form choice during the replay
+        chaos.recreate(rec)
     still = mod.replay(ctx, payload)
     if still:
         print('VIOLATION property=%s replay=%s' % (prop, os.path.relpath(path, VERIF)))
